@@ -98,7 +98,7 @@ def cs_ok(data, pos):
     return pos < len(data) and pos + cs_len(data[pos]) <= len(data)
 
 
-@spec
+@spec(opaque=True, args=['int'], ret='bytes', post=lambda v, result: (len(result) >= 1, len(result) <= 9))
 def compact_size(v):
     """Bitcoin CompactSize / var_int encoding of 0 <= v < 2**64"""
     if v < 253:
@@ -110,7 +110,7 @@ def compact_size(v):
     return b"\xff" + le(v, 8)
 
 
-@spec
+@spec(opaque=True, args=['bytes'], ret='bytes')
 def varstr(b):
     return compact_size(len(b)) + b
 
